@@ -86,9 +86,10 @@ def PcInv (c : Cfg α) (s : St α) : Prop :=
   | .closeDir | .closeDest =>
       s.destOpen = true ∧ (s.success = true → Complete c s ∧ (c.o.syncEff = true → s.fs.durable = true))
   | .statDest | .unlinkDest => s.success = false ∧ s.destOpen = false
-  | .closeSrc => s.destOpen = false ∧ c.o.stdin = false ∧ (s.success = true → c.o.keepEff = false → Good c s)
-  | .statSrc | .unlinkSrc => s.success = true ∧ c.o.keepEff = false ∧ c.o.stdin = false ∧ Good c s
-  | .done => True
+  | .closeSrc => s.destOpen = false ∧ c.o.stdin = false ∧
+      (s.success = true → c.o.destStdout = false → c.o.mode ≠ .test → Good c s)
+  | .statSrc | .unlinkSrc => s.success = true ∧ c.o.keepEff = false ∧ c.o.stdin = false ∧ s.destOpen = false ∧ Good c s
+  | .done => s.success = true → c.o.destStdout = false → c.o.mode ≠ .test → Good c s
 
 structure Inv (c : Cfg α) (s : St α) : Prop where
   dstName : s.fs.dstName ≠ some inoSrc
@@ -116,19 +117,20 @@ theorem fileDest_of_noKeep {o : Opts} (hk : o.keepEff = false) (hs : o.stdin = f
 /-! ### io_close dispatchers -/
 
 theorem inv_closeSrcPhase {c : Cfg α} {s : St α} (b : Base c s) (hd : s.destOpen = false)
-    (hg : s.success = true → c.o.keepEff = false → c.o.stdin = false → Good c s) :
+    (hg : s.success = true → c.o.destStdout = false → c.o.mode ≠ .test → Good c s) :
     Inv c (closeSrcPhase c s) := by
   unfold closeSrcPhase
   split
-  · exact Base.toInv ⟨b.dstName, b.srcName, b.srcLinked, b.openLinked, b.pend, b.sparse, b.preMain⟩ (by simp [PcInv])
+  · exact Base.toInv ⟨b.dstName, b.srcName, b.srcLinked, b.openLinked, b.pend, b.sparse, b.preMain⟩
+      (by simp only [PcInv]; exact hg)
   · rename_i h
     simp at h
     refine Base.toInv ⟨b.dstName, b.srcName, b.srcLinked, b.openLinked, b.pend, b.sparse, b.preMain⟩ ?_
     simp only [PcInv]
-    exact ⟨hd, h.1, fun h1 h2 => hg h1 h2 h.1⟩
+    exact ⟨hd, h.1, hg⟩
 
 theorem inv_closeDestPhase {c : Cfg α} {s : St α} (b : Base c s)
-    (h1 : s.destOpen = false → s.success = true → c.o.keepEff = false → c.o.stdin = false → Good c s)
+    (h1 : s.destOpen = false → s.success = true → c.o.destStdout = false → c.o.mode ≠ .test → Good c s)
     (h2 : s.destOpen = true → s.success = true → Complete c s ∧ (c.o.syncEff = true → s.fs.durable = true)) :
     Inv c (closeDestPhase c s) := by
   unfold closeDestPhase
@@ -165,9 +167,8 @@ theorem inv_closeBlock {c : Cfg α} {s : St α} (b : Base c s)
   · rename_i h
     simp at h
     apply inv_closeDestPhase b
-    · intro hdo hs hk hi
-      have := fileDest_of_noKeep hk hi
-      have := hd hs this.1 this.2
+    · intro hdo hs h1 h2
+      have := hd hs h1 h2
       simp [hdo] at this
     · intro hdo hs
       exact absurd hdo (by simpa using h hs)
